@@ -156,6 +156,7 @@ ERRS = {
     'var-invalid-name': (['1', '4', '2', '2n'], 'InvalidInput'), 'blank-lower': (['', '4', 'n', 'n'], 'MissingInput'),
     'blank-summand': (['1', '4', '', 'n'], 'MissingInput'), 'blank-var': (['1', '4', 'n', ''], 'MissingInput'),
     'instructor-var': (['1', '4', 'x*n+n^2+0*c', 'n'], 'UndefinedVariable'), 'instructor-var-limit': (['1+0*c', '4', 'x*n+n^2', 'n'], 'UndefinedVariable'),
+    'instructor-var-after-unknown': (['1', '4', 'x*n+n^2+0*c', 'n'], 'UndefinedVariable'), 'instructor-var-limit-after-unknown': (['1', '4+c-c', 'x*n+n^2', 'n'], 'UndefinedVariable'),
     'inf-to-inf': (['infty', 'infty', 'n', 'n'], 'SummationError'), 'unknown-name': (['1', '4', 'x*n+zz', 'n'], 'UndefinedVariable'),
 }
 
@@ -164,7 +165,7 @@ def h_errors(E, case):
     from mitxgraders.exceptions import MITxError, ConfigError, StudentFacingError
     SC = make_sym_sampler(E, 'c', 1, 2)
     g, SX, SD = _grader(E, variables=['x', 'd', 'c'], sample_from={'x': make_sym_sampler(E, 'xx', 1, 2)(), 'd': make_sym_sampler(E, 'dd', -1, 1)(), 'c': SC()},
-                        instructor_vars=['c'])
+                        instructor_vars=['not_a_name_of_this_problem', 'c', 'neither_this'] if case.endswith('-after-unknown') else ['c'])
     inp, cls = ERRS[case]
     try:
         r = g(None, list(inp))
